@@ -670,7 +670,14 @@ private:
 
   void stopTickThread()
   {
-    _running.store(false, std::memory_order_release);
+    // Flip the flag under the CV mutex: the tick thread tests it (the wait predicate)
+    // while holding _tickCvMutex, so a store + notify made without the mutex can fall
+    // between that test and the thread going to sleep, and the wake-up is lost — the
+    // join below then blocks for up to one full tick duration.
+    {
+      std::lock_guard lock(_tickCvMutex);
+      _running.store(false, std::memory_order_release);
+    }
     _tickCv.notify_all();
     if (_tickThread.joinable())
     {
